@@ -81,3 +81,8 @@ package js_printer
 //@ flow forbid-in-is-inherited.conditional-else C01: func=(*printer).printExpr ; in=js_printer ; site=call printExprWithoutLeadingNewline ; when-arg=1:*.No ; argpath=3:*flags&2
 //@ flow forbid-in-is-inherited.arrow-body C01: func=(*printer).printExpr ; in=js_printer ; site=call printExprWithoutLeadingNewline ; when-arg=1:*.ValueOrNil ; scenario=arrow_body_in_for_init ; arg-from=3:flags
 //@ flow forbid-in-is-inherited.binary-right C01: func=(*binaryExprVisitor).visitRightAndFinish ; in=js_printer ; site=call printExpr ; when-arg=1:*.Right ; scenario=arrow_body_in_for_init ; argpath=3:v.flags&10* OR v.flags&2*
+
+// C06 / C01: a number (a literal, or an enum member of another module inlined at print time) is printed with the
+// precedence level of the position it stands in: printNumber decides from that level whether a negative value needs
+// parentheses (`(-1).toString()` versus `-1 .toString()`). Every printNumber call in printExpr passes printExpr's own level.
+//@ flow numbers-are-printed-at-their-own-level C06 C01: func=(*printer).printExpr ; in=js_printer ; site=call printNumber ; argpath=2:level
